@@ -72,6 +72,7 @@ func c10AddCase(out *emit.Out, scenario string, in c10Input) {
 	pk := tk.GetPKI()
 	reg := tk.NewRegistry()
 	numbers := map[string]int{}
+	idents := map[int][2]string{}
 	next := 1
 	var obs []c10Obs
 	var coqEvs []string
@@ -162,11 +163,22 @@ func c10AddCase(out *emit.Out, scenario string, in c10Input) {
 			if o.OkC && o.OkS && !o.ResS && len(shSID) > 0 {
 				numbers[hex.EncodeToString(shSID)] = next
 				o.New = next
+				// the peer identities both ends saw on the connection that created the session
+				idents[next] = [2]string{strings.Join(cr.PeerCerts, ","), strings.Join(sr.PeerCerts, ",")}
 				next++
 			}
 			o.SameID = true
 			if o.OkC {
 				o.SameID = strings.Join(cr.PeerCerts, ",") == "srv-sig,srv-enc"
+			}
+			if o.OkC && o.OkS && o.ResC && o.ResS {
+				// a resumed connection has the same peer identity, on both ends, as the connection that created the session
+				if id, ok := idents[o.Offered]; ok && (id[0] != strings.Join(cr.PeerCerts, ",") || id[1] != strings.Join(sr.PeerCerts, ",")) {
+					o.SameID = false
+				}
+			}
+			if !o.SameID && direct == "" {
+				direct = "resumed connection reports another peer identity than the connection that created the session"
 			}
 			obs = append(obs, o)
 			// oracle verdicts
